@@ -36,6 +36,9 @@ def scenarios(thorough):
                 out.append((label, pre, [['set', 'b', 2], r], 'writer/reader'))
             out.append((label, pre, [['update', [['b', 2], ['c', 3]]], ['items']], 'writer/reader'))
             out.append((label, pre, [['del', 'a'], ['items']], 'writer/reader'))
+            # an existing but still empty archive; the default (cached) front end merely opens it
+            out.append((label, 'EMPTY', [['set', 'b', 2], ['open-cached']], 'writer/opener'))
+            out.append((label, 'EMPTY', [['set', 'b', 2], ['read-cache']], 'writer/reader'))
             continue
         out.append((label, pre, [['set', 'b', 2], ['set', 'c', 3]], 'writer/writer'))
         out.append((label, pre, [['set', 'b', 2], ['del', 'a']], 'writer/writer'))
@@ -46,6 +49,9 @@ def scenarios(thorough):
         out.append((label, pre, [['set', 'a', 9], ['items']], 'overwrite/reader'))
         out.append((label, pre, [['del', 'a'], ['items']], 'delete/reader'))
         out.append((label, pre, [['set', 'b', 2], ['open']], 'writer/opener'))
+        out.append((label, 'EMPTY', [['set', 'b', 2], ['open-cached']], 'writer/opener'))
+        out.append((label, pre, [['set', 'a', 9], ['contains', 'a']], 'overwrite/reader'))
+        out.append((label, pre, [['set', 'a', 9], ['keys']], 'overwrite/reader'))
         if thorough:
             out.append((label, pre, [['set', 'b', 2], ['set', 'c', 3], ['lookup', 'b']], 'writer/writer/reader'))
             out.append((label, pre, [['update', [['b', 2], ['c', 3]]], ['items']], 'writer/reader'))
@@ -61,6 +67,8 @@ def is_writer(act):
 def stored_values(pre, actions):
     """key -> set of JSON values ever stored for it (and whether absence is legitimate)"""
     vals = {}
+    if pre == 'EMPTY':
+        pre = []
     for k, v in pre:
         vals.setdefault(json.dumps(k), set()).add(json.dumps(v))
     for a in actions:
@@ -74,9 +82,13 @@ def stored_values(pre, actions):
 
 def judge(label, pre, actions, results, final):
     probs = []
+    if pre == 'EMPTY':
+        pre = []
     vals = stored_values(pre, actions)
     prem = {json.dumps(k): json.dumps(v) for k, v in pre}
     writers = [a for a in actions if is_writer(a)]
+    deleted = {json.dumps(a[1]) for a in writers if a[0] in ('del', 'pop')} | \
+        {k for a in writers if a[0] in ('clear',) for k in prem} | {json.dumps(k) for a in writers if a[0] == 'popkeys' for k in a[1]}
     touched = set()
     for a in writers:
         if a[0] in ('set', 'del', 'pop', 'setdefault'):
@@ -96,6 +108,8 @@ def judge(label, pre, actions, results, final):
             for kk in prem:
                 if kk not in touched and kk not in seen:
                     probs.append('%s does not see key %s, which no one touches' % (who, kk))
+                elif kk not in deleted and kk not in seen:
+                    probs.append('%s does not see key %s, which is stored throughout (it is only being overwritten)' % (who, kk))
     for i, (a, r) in enumerate(zip(actions, results)):
         who = 'process %d %s' % (i, json.dumps(a)[:50])
         if r is None or not r.get('ok'):
@@ -108,6 +122,9 @@ def judge(label, pre, actions, results, final):
             for k in v:
                 if json.dumps(k) not in vals:
                     probs.append('%s lists key %s that was never stored' % (who, json.dumps(k)))
+            for kk in prem:
+                if kk not in deleted and kk not in {json.dumps(k) for k in v}:
+                    probs.append('%s does not list key %s, which is stored throughout' % (who, kk))
         elif a[0] == 'len':
             lo = len([k for k in prem if k not in touched])
             hi = len(set(prem) | set(vals))
@@ -120,6 +137,12 @@ def judge(label, pre, actions, results, final):
                 probs.append('%s returned %s, never stored for that key' % (who, json.dumps(got)[:60]))
             if got == ABSENT and kk in prem and kk not in touched:
                 probs.append('%s: key %s, which no one touches, is absent' % (who, kk))
+            elif (got == ABSENT or not present) and kk in prem and kk not in deleted:
+                probs.append('%s: key %s is stored throughout (it is only being overwritten) but is absent' % (who, kk))
+        elif a[0] == 'contains':
+            kk = json.dumps(a[1])
+            if not v and kk in prem and kk not in deleted:
+                probs.append('%s: key %s is stored throughout but membership is False' % (who, kk))
     # final contents: sequential outcome of the writers in SOME order; with writers on distinct keys: all of them
     if not final.get('ok'):
         probs.append('the archive cannot be read afterwards: %s' % final.get('error'))
@@ -152,7 +175,11 @@ class Engine:
     def prepare(self, label, pre):
         snap = self.scratch.new('-snap')
         os.makedirs(os.path.join(snap, 'w'))
-        if pre:
+        if pre == 'EMPTY':
+            r = cl.run_child({'config': label, 'path': os.path.join(snap, 'w', 'arch'), 'action': ['open']}, os.path.join(snap, 'w'))
+            if not r.get('ok'):
+                raise RuntimeError('setup failed: %s' % r)
+        elif pre:
             r = cl.run_child({'config': label, 'path': os.path.join(snap, 'w', 'arch'), 'action': ['update', pre]}, os.path.join(snap, 'w'))
             if not r.get('ok'):
                 raise RuntimeError('setup failed: %s' % r)
